@@ -18,6 +18,22 @@ def run(name, seed):
     B = e2.transform(dc(c.X), **dc(c.tr_kw))
     ca, cb = zoo.canon(A), zoo.canon(B)
     out["diff"] = zoo.diff(ca, cb, c.exact, c.rtol)
+    # the same claim for an estimator object with a past (fitted on other data and used before): a refit must not
+    # remember anything of the earlier model
+    e3 = c.make()
+    try:
+        e3.fit(dc(c.X2), **dc(c.tr2_kw if c.tr2_kw else c.fit_kw))
+        e3.transform(dc(c.X2), **dc(c.tr2_kw))
+        e3.transform(dc(c.X), **dc(c.tr_kw))
+    except Exception:
+        pass
+    try:
+        A3 = e3.fit_transform(dc(c.X), **dc(c.fit_kw))
+        B3 = e3.transform(dc(c.X), **dc(c.tr_kw))
+        d3 = zoo.diff(ca, zoo.canon(A3), c.exact, c.rtol) or zoo.diff(cb, zoo.canon(B3), c.exact, c.rtol)
+        out["refit_diff"] = d3
+    except Exception as e:
+        out["refit_diff"] = "refitted estimator raised %s: %s" % (type(e).__name__, str(e)[:200])
     out["exact"] = c.exact
     out["shape"] = ca.get("shape") or [len(ca.get("items", []))]
     out["nnz"] = len(ca.get("triples", ca.get("data", ca.get("items", []))))
